@@ -308,6 +308,13 @@ def run(pid="C04", mon="MonC04"):
     cfg = D.write_cfg("Downstream_%s_l1c.cfg" % pid, maxc=3, readers=("R1",), cap=2, faults=0, byvalue=True, bogus=False, prereg="PreRegABA")
     ctx.l1("Downstream", cfg, timeout=1500)
     os.remove(os.path.join(SPEC, cfg))
+    if pid == "C03":
+        # sensitivity: an alias table that shrinks when the upstream's close metadata is read loses chunks that are still queued
+        cfg = D.write_cfg("Downstream_%s_relmeta.cfg" % pid, maxc=2, readers=("R1",), cap=2, faults=0, byvalue=True, bogus=False, release_on_close_meta=True, invs="ResolvedRight")
+        rc = ctx.l1("Downstream", cfg, must_hold=False, timeout=600)
+        os.remove(os.path.join(SPEC, cfg))
+        if rc.violated != "ResolvedRight":
+            raise Inconclusive("variant ReleaseOnCloseMeta should violate ResolvedRight, TLC says %s" % (rc.violated or rc.error or "nothing"))
     if not quick:
         cfg = D.write_cfg("Downstream_%s_l1b.cfg" % pid, maxc=3, readers=("R1", "R2"), cap=3, faults=0, byvalue=True, bogus=False, prereg="PreRegNone")
         ctx.l1("Downstream", cfg, timeout=2400)
